@@ -87,9 +87,16 @@ def sweep(row):
         out = p.stdout.strip().splitlines()
         line = out[-1] if out else ""
         m = re.match(r"^(CAUGHT|MISSED|RC\d+|NOAPPLY|NOBUILD)", line)
+        if not m:
+            # a transient failure of the scratch worktree (several sweeps
+            # share /repo's worktree list): once more, alone
+            p = subprocess.run([os.path.join(ROOT, "tools", "seedtest.sh"), dst, "quick"], stdout=subprocess.PIPE, stderr=subprocess.STDOUT, text=True, cwd=ROOT)
+            out = p.stdout.strip().splitlines()
+            line = out[-1] if out else ""
+            m = re.match(r"^(CAUGHT|MISSED|RC\d+|NOAPPLY|NOBUILD)", line)
         meta["checks"]["now"] = m.group(1) if m else "?"
         k = re.search(r"key=(\S+)", line)
-        meta["checks"]["now_key"] = k.group(1) if k else ""
+        meta["checks"]["now_key"] = k.group(1) if k else ("" if m else line[:120])
     json.dump(meta, open(os.path.join(dst, "meta.json"), "w"), indent=1)
     open(os.path.join(dst, "meta.json"), "a").write("\n")
     return "%s %s -> %s %s" % (sid, meta["checks"]["when_it_arrived"], meta["checks"].get("now", "?"), meta["checks"].get("now_key", ""))
